@@ -173,11 +173,23 @@ def fields_expected(m):
 
 def parse_stream(f):
     """one library parse; -> ('msg', obj) | ('none',) | ('exc', e)"""
+    pos = f.tell()
+    buf = f.getvalue()[pos:]
     try:
         o = MsgSerializable.stream_deserialize(f)
+        res = ('none',) if o is None else ('msg', o)
     except Exception as e:      # every exception type is a rejection here; which ones are allowed is decided by the caller
-        return ('exc', e)
-    return ('none',) if o is None else ('msg', o)
+        res = ('exc', e)
+    # the whole-buffer entry point on the same bytes: it may not hand out a message where the stream parser refuses (e.g. by
+    # resynchronising on a later frame), and when it does return one, it is the one the stream parser returns
+    try:
+        o2 = MsgSerializable.from_bytes(buf)
+    except Exception:
+        o2 = None
+    if o2 is not None and (res[0] != 'msg' or type(o2) is not type(res[1]) or repr(fields_of(o2)) != repr(fields_of(res[1]))):
+        raise Violation('from_bytes/returns-message', 'from_bytes returned %s for a buffer on which stream parsing %s' % (
+            type(o2).__name__, 'raised ' + type(res[1]).__name__ if res[0] == 'exc' else ('returned ' + (type(res[1]).__name__ if res[0] == 'msg' else 'None'))))
+    return res
 
 
 def expect_reject(res, what, trunc=False):
